@@ -1110,6 +1110,11 @@ async def _dead_connection_main(case: dict) -> dict:
                     if isinstance(exc, StreamProtocolParseError):
                         res["parse_errors"] += 1
                     resumed(exc)
+                    if case["idle_timeout"] == 0 and isinstance(exc, TimeoutError):
+                        # a polling handler does something else for a moment between two empty polls (a handler polling in a
+                        # closed loop always has an expired scope's cancellation pending: known finding D5 would swallow the
+                        # harness's own shutdown)
+                        await asyncio.sleep(0)
                     if case["handler"] == "return-on-error":
                         return  # "this request failed": the server starts a fresh generator for the next one
                     continue
@@ -1237,6 +1242,17 @@ FAULTY_PORT_DEAD = 41000
 
 @st.composite
 def st_dead_connection_case(draw: st.DrawFn, tier: str) -> dict:
+    case = draw(_st_dead_connection_case_raw(tier))
+    if case["idle_timeout"] == 0 and (case["errno"] in ("PARSE", "VALID") or case["handler"] != "idle-timeout"):
+        # a polling handler whose connection stays open until the harness shuts the server down: every poll has an expired
+        # scope's cancellation pending, and the known finding D5 then swallows the shutdown of the harness itself with
+        # probability ~1/2 - polling handlers are only generated where the fault ends the connection
+        case["idle_timeout"] = 0.5
+    return case
+
+
+@st.composite
+def _st_dead_connection_case_raw(draw: st.DrawFn, tier: str) -> dict:
     return {
         "errno": draw(st.sampled_from(sorted(DEAD_ERRNOS) + sorted(DISCONNECT_ERRORS) + ["PARSE", "PARSE", "PARSE", "VALID", "VALID"])),
         "tls": draw(st.booleans()),
